@@ -234,6 +234,24 @@ func randomScript(rng *rand.Rand) *Script {
 	return sc
 }
 
+// lockStress: three connections of one shape look actions up and count them at the same time, over
+// and over (the history in which the shape's read and write locks collide).
+func lockStress() *Script {
+	sh := Shape{Re: "A"}
+	for b := 0; b < 6; b++ {
+		sh.Halts = append(sh.Halts, Halt{B: b, D: 0, Cnt: -1})
+	}
+	cfg := &Cfg{Wellformed: true, DefaultsOK: true, Shapes: []Shape{sh}}
+	cfg.norm()
+	sc := &Script{Steps: []Step{{Act: "post", Cfg: cfg}, {Act: "accept", C: "c1"}, {Act: "accept", C: "c2"}, {Act: "accept", C: "c3"}}}
+	for round := 0; round < 25; round++ {
+		for _, c := range []string{"c1", "c2", "c3"} {
+			sc.Steps = append(sc.Steps, Step{Act: "req", C: c, M: "A", N: 6})
+		}
+	}
+	return sc
+}
+
 func describe(sc *Script) string {
 	var p []string
 	for _, s := range sc.Steps {
@@ -277,6 +295,8 @@ func (r rejection) signature() string {
 		return "the connection was cut where no close action applies, or not at the action's offset"
 	case strings.Contains(at, `"ev":"done"`):
 		return "a response arrived whole (or sooner than its halts allow) where the shape demands a cut or a delay"
+	case strings.Contains(at, `"ev":"hung"`):
+		return "a shaped write never completed (the script did not finish within its bound)"
 	case strings.Contains(at, `"ev":"resources"`):
 		return "buckets created for shaped connections are still open after the connections were closed"
 	}
@@ -353,7 +373,7 @@ func runAll(scs []*Script, par int) []*Result {
 		go func(i int, sc *Script) {
 			defer wg.Done()
 			defer func() { <-sem }()
-			out[i] = Run(sc)
+			out[i] = RunBounded(sc, 90*time.Second)
 		}(i, sc)
 	}
 	wg.Wait()
@@ -399,6 +419,31 @@ func run(c *core.Ctx) {
 			c.Extra("deviation_"+r.name, res.Violated)
 		}
 	}
+	// the locking protocol around the shared shape map: no deadlock, every goroutine finishes;
+	// with the recursive read locks of the code before the repair TLC must find the deadlock
+	for _, rec := range []bool{false, true} {
+		name := fmt.Sprintf("shapelocks_%v", rec)
+		cfg := fmt.Sprintf("SPECIFICATION Spec\nCONSTANTS\n  Lookups = {\"l1\", \"l2\"}\n  Actions = {\"a1\", \"a2\"}\n  Posts = {\"p1\"}\n  Recursive = %s\nINVARIANT Exclusive\nPROPERTY Finishes\n", strings.ToUpper(fmt.Sprint(rec)))
+		os.WriteFile(filepath.Join(c.Work, name+".cfg"), []byte(cfg), 0o644)
+		res, err := core.RunTLC(c.Work, core.TLCOpts{Module: "ShapeLocks", Cfg: name + ".cfg", Workers: 4, Timeout: 10 * time.Minute, Deadlock: true})
+		if err != nil {
+			c.Inconclusive("TLC on ShapeLocks failed: %v", err)
+			return
+		}
+		dead := strings.Contains(res.Out, "Deadlock reached")
+		switch {
+		case !rec && (dead || !res.OK()):
+			c.Inconclusive("ShapeLocks reference model: deadlock=%v %s", dead, res.Tail(15))
+			return
+		case !rec:
+			c.Model(res)
+		case !dead:
+			c.Inconclusive("self-test: ShapeLocks with recursive read locks should deadlock")
+			return
+		default:
+			c.Extra("deviation_shapelocks_recursive", "Deadlock reached")
+		}
+	}
 	simCfg := "SPECIFICATION Spec\nCONSTANTS\n  Conns = {c1, c2}\n  Configs <- SimConfigs\n  MaxResp = 3\n  MaxPosts = 3\n  HeadLens = {1}\n  BodyLens = {0, 3, 5}\n  RangeStarts = {0, 1, 2}\n  StaleContext = FALSE\n  SwapUnvalidated = FALSE\n  CloseLate = FALSE\nCHECK_DEADLOCK FALSE\n"
 	os.WriteFile(filepath.Join(c.Work, "shape_sim.cfg"), []byte(simCfg), 0o644)
 	base := filepath.Join(c.Work, "shape_sim")
@@ -440,6 +485,7 @@ func run(c *core.Ctx) {
 	for i := c.Pick(60, 500); i > 0; i-- {
 		add(randomScript(rng))
 	}
+	add(lockStress())
 	ress := runAll(scs, 24)
 	var okS []*Script
 	var okR []*Result
@@ -459,7 +505,7 @@ func run(c *core.Ctx) {
 		// only a rejection that repeats counts (timing is part of what is checked)
 		confirmed := false
 		for try := 0; try < 2 && !confirmed; try++ {
-			r2 := Run(r.sc)
+			r2 := RunBounded(r.sc, 90*time.Second)
 			if r2.Err != "" {
 				continue
 			}
